@@ -108,7 +108,7 @@ M("cubic-imul-control2-skipped", ["C02"], "CubicBezier.__imul__ skips control2 w
   ("            if self.control2 is not None:\n                self.control2 *= other\n            if self.end is not None:\n                self.end *= other\n        return self\n\n    def __len__(self):\n        return 4", "            if self.control2 is not None and self.control2 != self.end:\n                self.control2 *= other\n            if self.end is not None:\n                self.end *= other\n        return self\n\n    def __len__(self):\n        return 4"))
 M("transformable-imul-order", ["C02"], "Transformable.__imul__ pre-multiplies",
   ("        if isinstance(other, Matrix):\n            self.transform *= other\n        return self\n\n    def __abs__(self):", "        if isinstance(other, Matrix):\n            self.transform = other * self.transform\n        return self\n\n    def __abs__(self):"))
-M("path-reify-no-reset", ["C02", "C18"], "Path.reify leaves the transform in place",
+M("path-reify-no-reset", ["C02"], "Path.reify leaves the transform in place",
   ("            for e in self._segments:\n                e *= self.transform\n        self.transform.reset()\n        return self", "            for e in self._segments:\n                e *= self.transform\n        return self"))
 M("roundshape-skew-branch-removed", ["C02", "C06"], "round shapes decomposed in transformed space under skew again",
   ("                return [s * m for s in self.segments(transformed=False)]\n", "                pass\n"))
@@ -181,3 +181,15 @@ M("ellipse-start-at-top", ["C06"], "ellipse decomposition starts a quarter turn 
 M("polygon-no-close", ["C06"], "polygon of two points gets no close", ("        if isinstance(self, Polygon):\n            segments.append(Close(last, points[0]))", "        if isinstance(self, Polygon) and len(points) > 2:\n            segments.append(Close(last, points[0]))"))
 M("polyline-pairs-from-flat-list", ["C06"], "points given as coordinate pairs dropped when odd", ("                    self.points = list(map(Point, points))", "                    self.points = list(map(Point, points[: len(points) // 2 * 2]))"))
 M("shape-eq-ignores-arcs", ["C06"], "Shape.__eq__ compares only the first segment", ("        for s, o in zip(q._segments, p._segments):\n            if not s == o:\n                return False\n        if p.stroke_width != q.stroke_width:", "        for s, o in zip(q._segments[:1], p._segments[:1]):\n            if not s == o:\n                return False\n        if p.stroke_width != q.stroke_width:"))
+
+# ---- copies and aliasing (C18) ---------------------------------------------------------------------------
+M("validate-connection-aliases-point", ["C02"], "linking a segment reuses the neighbour's Point object", ("        if first.end is not None and second.start is None:\n            second.start = Point(first.end)", "        if first.end is not None and second.start is None:\n            second.start = first.end"))
+M("quad-copy-shares-control", ["C18"], "QuadraticBezier keeps the given control Point object", ("        self.control = Point(control) if control is not None else None", "        self.control = control if isinstance(control, Point) else (Point(control) if control is not None else None)"))
+M("matrix-copy-returns-self-when-identity", ["C18"], "Matrix.__copy__ returns itself for the identity", ("    def __copy__(self):\n        return Matrix(self.a, self.b, self.c, self.d, self.e, self.f)", "    def __copy__(self):\n        if self.is_identity():\n            return self\n        return Matrix(self.a, self.b, self.c, self.d, self.e, self.f)"))
+M("shape-copy-shares-fill", ["C18"], "copied shapes share the fill Color object", ("        self.fill = Color(s.fill) if s.fill is not None else None\n        self.stroke = Color(s.stroke) if s.stroke is not None else None", "        self.fill = s.fill\n        self.stroke = Color(s.stroke) if s.stroke is not None else None"))
+M("shape-copy-shares-values", ["C18"], "copied elements share the values dictionary", ("        self.id = obj.id\n        self.values = dict(obj.values)", "        self.id = obj.id\n        self.values = obj.values"))
+M("transformable-copy-shares-matrix", ["C18"], "copied elements share the transform Matrix", ("    def property_by_object(self, s):\n        self.transform = Matrix(s.transform)\n        self.apply = s.apply", "    def property_by_object(self, s):\n        self.transform = s.transform\n        self.apply = s.apply"))
+M("group-copy-shallow", ["C18"], "Group copy keeps the child objects", ("            if isinstance(s, Group):\n                self.extend(list(map(copy, s)))", "            if isinstance(s, Group):\n                self.extend(list(s))"))
+M("polyshape-copy-shares-points", ["C18"], "copied polygons share their Point objects", ("                elif isinstance(first_point, (list, tuple, complex, str, Point)):\n                    self.points = list(map(Point, points))", "                elif isinstance(first_point, Point):\n                    self.points = list(points)\n                elif isinstance(first_point, (list, tuple, complex, str, Point)):\n                    self.points = list(map(Point, points))"))
+M("length-neg-in-place", ["C18", "C12"], "-length negates the operand", ("    def __neg__(self):\n        s = self.__copy__()\n        s.amount = -s.amount\n        return s", "    def __neg__(self):\n        self.amount = -self.amount\n        return self"))
+M("arc-copy-shares-center", ["C18"], "copied arcs share the centre Point", ("        if len_args > 2:\n            if args[2] is not None:\n                self.center = Point(args[2])", "        if len_args > 2:\n            if args[2] is not None:\n                self.center = args[2] if isinstance(args[2], Point) else Point(args[2])"))
